@@ -435,3 +435,49 @@ PROPERTIES["C13"] = {
                "HTTP request/response signatures (a conforming message must go through Http1Parser: HashMap, not encodable); shadowing by earlier more generic entries",
     "assumptions": ["E1", "layout, quirks, olen copied from the signature", "wildcard MSS >= 64"],
 }
+
+# ------------------------------------------------------------------------------------------ C07
+_c07 = [
+    H("c07::c07_tcp_key_syn", "quick", "SYN with TS option: source/destination address byte, both ports, TSval symbolic",
+      "the tracker is entered once with exactly the packet's directed 4-tuple, role and TSval"),
+    H("c07::c07_tcp_key_synack", "quick", "SYN+ACK, same", "same"),
+    H("c07::c07_tcp_key_ack", "quick", "plain ACK, same (role by the port heuristic)", "same"),
+    H("c07::c07_table_other_connection_cli_cli", "quick", "table holds A (client); two segments of another connection B (client), all TSvals symbolic",
+      "B's first reports nothing; B's estimate depends on B alone; A's entry bit-identical"),
+    H("c07::c07_table_other_connection_srv_cli", "quick", "A server side, B client side of another connection", "same"),
+    H("c07::c07_table_other_direction_cli_srv", "quick", "B is the other direction of A's own connection", "same"),
+    H("c07::c07_table_other_direction_srv_cli", "quick", "same, roles swapped", "same"),
+]
+PROPERTIES["C07"] = {
+    "harnesses": _c07,
+    "explanation": "Isolation of the TCP timestamp state as an inductive step instead of interleavings: (1) packet level - the real header walk hands the tracker "
+                   "exactly the packet's own directed 4-tuple, role and TSval, so packets share a key only if they belong to the same connection and direction; "
+                   "(2) table level - a step of the real check_ts_tcp for a key B never reads or writes the entry of a different key A (other connection, or the "
+                   "other direction of the same one): B's results are those on an empty table and A's entry is bit-identical afterwards.",
+    "functions": ["tcp_process::process_tcp_ipv4 (visit_tcp) up to the tracker call", "uptime::check_ts_tcp", "tcp_process::is_packet_from_client"],
+    "bounds": "one tracked entry A + two segments of B on the 4-slot model; IPv4; addresses vary in the last byte",
+    "outside": "TLS flow table (packet-level TLS path does not finish under Kani), HTTP flows and the HPACK decoder shared by all connections of a processor (D6, seen by reading; "
+               "needs HttpProcessors), IPv6 path of the header walk, table eviction at capacity, more than two connections",
+    "assumptions": ["E1", "E3 ttl_cache model", "E6", "packet level: tracker replaced by an argument recorder through the verif hook; table level: uptime kernels stubbed"],
+}
+
+# ------------------------------------------------------------------------------------------ C06
+_c06 = []
+_q06 = {"ipver_1", "pclass_1", "quirk_3", "tcpopt_3", "ttl_3"}
+for ty, lens in [("ipver", [1, 2]), ("pclass", [1, 2]), ("quirk", [2, 3, 4]), ("tcpopt", [2, 3, 4]), ("ttl", [1, 2, 3, 4]), ("window", [1, 2, 3, 4])]:
+    for n in lens:
+        _c06.append(H(f"c06::c06_{ty}_{n}", "quick" if f"{ty}_{n}" in _q06 else "thorough",
+                      f"every printable-ASCII string of {n} byte(s) parsed as {ty}",
+                      "Ok(v) iff the p0f token grammar accepts the whole string, v the value it assigns; Err otherwise (trailing input rejected)",
+                      timeout_s=2400, mem_gb=20))
+PROPERTIES["C06"] = {
+    "harnesses": _c06,
+    "max_jobs": 3,
+    "explanation": "Token grammar of the TCP signature language by bounded model checking: the real FromStr implementations (nom 8 combinators of db_parse.rs) of the six "
+                   "leaf types on every printable-ASCII string of the stated length, against a hand-written recogniser over bytes (no nom).",
+    "functions": ["<IpVersion|PayloadSize|Quirk|TcpOption|Ttl|WindowSize as FromStr>::from_str (db_parse::{parse_ip_version, parse_payload_size, parse_quirk, parse_tcp_option, parse_ttl, parse_window_size})"],
+    "bounds": "strings of 1..4 bytes (quick: one length per type); each query 7-14 min and 9-14 GB, hence at most 3 at a time",
+    "outside": "value -> text -> value (core::fmt on symbolic values exhausts memory), so the round-trip form of the property is not decided; tokens longer than 4 bytes (mss*n, mtu*n, eol+n, uptr+, urgf+, pushf+); "
+               "whole signature lines, HTTP signatures, labels, Database::from_str (sections, HashMap index), every Display impl - seeds in display.rs are missed by design",
+    "assumptions": ["E1", "E6 format stub (error messages not read)", "printable ASCII"],
+}
